@@ -58,7 +58,11 @@ class VerifLateError(exceptions.JsonRpcError):
 _second = exceptions.JsonRpcError.from_json({'code': 2002, 'message': 'between the two registrations'})
 
 
-class VerifLatestError(exceptions.JsonRpcError):
+class VerifAbcMeta(type(exceptions.JsonRpcError), __import__('abc').ABCMeta):
+    """error classes that are abstract base classes as well: their metaclass derives from the library's"""
+
+
+class VerifLatestError(exceptions.JsonRpcError, metaclass=VerifAbcMeta):
     code = 2002
     message = 'latest'
 
